@@ -963,7 +963,7 @@ func TestC17(t *testing.T) {
 
 	// (ii) strings
 	r := evid.Rand(1717)
-	nb := evid.N(40, 1500)
+	nb := evid.N(40, 900)
 	rounds := evid.N(3, 6)
 	var scriptStrs []string
 	for _, cl := range c17Classes {
